@@ -10,7 +10,7 @@ using namespace squids;
 
 enum { OP_DEFAULT=1, OP_SIZED, OP_EXTERNAL, OP_FROMLIST, OP_ALIGNED, OP_COPYCON, OP_MOVECON, OP_DESTROY, OP_COPYASSIGN, OP_MOVEASSIGN,
        OP_SETBACKING, OP_EXPR, OP_PLAININC, OP_PLAINDEC, OP_SCALE, OP_DIVIDE, OP_EQ, OP_TRACE, OP_FILL, OP_FROMMATRIX, OP_FACTORY,
-       OP_ROTMAT, OP_CLEARCACHE, OP_PRINT, OP_GETMATRIX, OP_COMPONENTS, OP_ROTATE, OP_UNARYVIEW, OP_EIGEN, OP_ELEMENTWISE_USER, OP_CONVERT, OP_CHURN };
+       OP_ROTMAT, OP_CLEARCACHE, OP_PRINT, OP_GETMATRIX, OP_COMPONENTS, OP_ROTATE, OP_UNARYVIEW, OP_EIGEN, OP_ELEMENTWISE_USER, OP_CONVERT, OP_CHURN, OP_GEXPR };
 
 struct user_op{ double operator()(double a, double b) const { return a*b+a; } };
 
@@ -38,6 +38,37 @@ static void eval_expr(unsigned expr, Stmt&& st, SU_vector& s1, SU_vector& s2, do
     case 18: st(ElementwiseProduct(s1,std::move(s2))); break;
     case 19: st(ElementwiseProduct(std::move(s1),std::move(s2))); break;
     case 20: st(ElementwiseOperation(user_op(),s1,s2)); break;
+    default: throw 42;
+  }
+}
+
+// the same statements with optimisation guarantees asserted (only for guarantees that are true for the shape under test)
+template<unsigned F, typename Stmt>
+static void eval_gexpr(unsigned expr, Stmt&& st, SU_vector& s1, SU_vector& s2, double c, const double* buf){
+  using detail::guarantee;
+  switch(expr){
+    case 0: st(guarantee<F>(s1+s2)); break;
+    case 4: st(guarantee<F>(s1-s2)); break;
+    case 6: st(guarantee<F>(-s1)); break;
+    case 8: st(guarantee<F>(s1*c)); break;
+    case 12: st(guarantee<F>(iCommutator(s1,s2))); break;
+    case 13: st(guarantee<F>(ACommutator(s1,s2))); break;
+    case 14: st(guarantee<F>(s1.Evolve(s2,c))); break;
+    case 15: st(guarantee<F>(s1.Evolve(buf))); break;
+    case 16: st(guarantee<F>(ElementwiseProduct(s1,s2))); break;
+    default: throw 42;
+  }
+}
+template<typename Stmt>
+static void eval_gexpr_f(unsigned flags, unsigned expr, Stmt&& st, SU_vector& s1, SU_vector& s2, double c, const double* buf){
+  switch(flags){
+    case 1: eval_gexpr<1>(expr,st,s1,s2,c,buf); break;
+    case 2: eval_gexpr<2>(expr,st,s1,s2,c,buf); break;
+    case 3: eval_gexpr<3>(expr,st,s1,s2,c,buf); break;
+    case 4: eval_gexpr<4>(expr,st,s1,s2,c,buf); break;
+    case 5: eval_gexpr<5>(expr,st,s1,s2,c,buf); break;
+    case 6: eval_gexpr<6>(expr,st,s1,s2,c,buf); break;
+    case 7: eval_gexpr<7>(expr,st,s1,s2,c,buf); break;
     default: throw 42;
   }
 }
@@ -107,6 +138,13 @@ extern "C" int h_op(unsigned op, void* tp, void* s1p, void* s2p, unsigned x, uns
       case OP_COMPONENTS: { std::vector<double> v=t->GetComponents(); res[0]=v.size(); for(size_t i=0;i<v.size();i++) ext[i]=v[i]; } break;
       case OP_ROTATE: *t = s1->Rotate(x,y,c,0.5*c); break;
       case OP_UNARYVIEW: if(x==0) t->Transpose(); else if(x==1) *t = s1->Real(); else *t = s1->Imag(); break;
+      case OP_GEXPR: {
+        unsigned stmt=x/1024, flags=(x/32)%32, expr=x%32;
+        if(stmt==0) eval_gexpr_f(flags,expr,st_assign{*t},*s1,*s2,c,ext);
+        else if(stmt==1) eval_gexpr_f(flags,expr,st_inc{*t},*s1,*s2,c,ext);
+        else if(stmt==2) eval_gexpr_f(flags,expr,st_dec{*t},*s1,*s2,c,ext);
+        else eval_gexpr_f(flags,expr,st_con{tp},*s1,*s2,c,ext);
+      } break;
       case OP_CHURN: { // y self-owned vectors of dimension x alive at once, then all released (fills / overflows the per-dimension block cache)
         SU_vector* arr=new SU_vector[y];
         try{ for(unsigned i=0;i<y;i++) arr[i]=SU_vector(x); }catch(...){ delete[] arr; throw; }
@@ -189,7 +227,7 @@ int main(int argc, char** argv){
       g_armed=(fs&&fj&&atoi(fs)==step); g_fail_j=fj?atoi(fj):-1; g_calls_in_step=0; }
     int rc=h_op(op, t>=0?slots[t]:nullptr, s1>=0?slots[s1]:nullptr, s2>=0?slots[s2]:nullptr, x,y,c, eb>=0?bufs[eb]:nullptr, res);
     // liveness bookkeeping mirrors the driver's: constructing ops make t live on success, destroy makes it dead
-    bool constructs=(op==OP_DEFAULT||op==OP_SIZED||op==OP_EXTERNAL||op==OP_FROMLIST||op==OP_ALIGNED||op==OP_COPYCON||op==OP_MOVECON||op==OP_FROMMATRIX||op==OP_FACTORY||(op==OP_EXPR&&x/32==3)||(op==OP_CONVERT&&(x==0||x==5)));
+    bool constructs=(op==OP_DEFAULT||op==OP_SIZED||op==OP_EXTERNAL||op==OP_FROMLIST||op==OP_ALIGNED||op==OP_COPYCON||op==OP_MOVECON||op==OP_FROMMATRIX||op==OP_FACTORY||(op==OP_EXPR&&x/32==3)||(op==OP_CONVERT&&(x==0||x==5))||(op==OP_GEXPR&&x/1024==3));
     if(constructs && rc==0 && t>=0) live[t]=1;
     if(op==OP_DESTROY && t>=0) live[t]=0;
     g_armed=false;
